@@ -21,7 +21,7 @@ CASE_TIMEOUT = {"quick": 40, "thorough": 120}
 
 
 def budget(tier):
-    return 700 if tier == "quick" else 7000
+    return 1500 if tier == "quick" else 15000
 
 
 def gen_case(rng, tier, k):
@@ -44,7 +44,10 @@ def run_case(case, fresh=True):
     if not target:
         return {"fails": [], "diffs": [], "nontrivial": False}
     forb = sorted({ni.names[i % ni.n] for i in case["forbidden"]})
-    succs = successions_to_target(sd, target, expand_diagram=True, skip_feedforward_successions=case["skip_ff"])
+    try:
+        succs = successions_to_target(sd, target, expand_diagram=True, skip_feedforward_successions=case["skip_ff"])
+    except RuntimeError:
+        return {"fails": [], "diffs": [], "tags": ["motif-limit-error"], "nontrivial": False}
     dump = common.dump_sd(sd, ni)
     ivs = succession_control(sd, target, strategy=case["strategy"], max_drivers_per_succession_node=case["bound"],
                              forbidden_drivers=set(forb), successful_only=False,
